@@ -86,7 +86,7 @@ def _step(draw):
 @st.composite
 def _case(draw, tier):
     big = tier != "quick"
-    mesh = draw(meshgen.any_mesh(max_pts=30 if big else 14, partial=True))
+    mesh = draw(meshgen.any_mesh(max_pts=30 if big else 14, partial=True, tiny=True))
     mesh.pop("centers", None)
     steps = draw(st.lists(_step(), min_size=1, max_size=5))
     return {"mesh": mesh, "steps": steps}
